@@ -344,15 +344,46 @@ func (sp *space) enumerate(fn func(call)) {
 	}
 }
 
-// sample draws one call with a bias towards small named subsets and absent */** arguments
-// (a uniform draw from the product is an error almost always).
+// sample draws one call. A uniform draw from the product is an error almost always, so half of the
+// draws are biased towards calls the signature can accept (positional count within the positional
+// parameters, named arguments among the parameters not yet bound, undeclared names only with
+// **kwargs) and the other half towards small named subsets and absent * / ** arguments.
 func (sp *space) sample(r *rand.Rand, s *sig) call {
 	var c call
 	if r.Intn(2) == 0 {
-		c.npos = r.Intn(len(s.pos) + 1) // no surplus
-	} else {
-		c.npos = r.Intn(maxNpos + 1)
+		c.npos = r.Intn(len(s.pos) + 1)
+		if s.star == starArgs && r.Intn(3) == 0 {
+			c.npos = r.Intn(maxNpos + 1)
+		}
+		for i, n := range callNames {
+			want := false
+			for j, p := range s.pos {
+				if p.name == n && j >= c.npos {
+					want = r.Intn(10) < 5 || (!p.opt && r.Intn(10) < 8)
+				}
+			}
+			for _, p := range s.kwonly {
+				if p.name == n {
+					want = r.Intn(10) < 5 || (!p.opt && r.Intn(10) < 8)
+				}
+			}
+			if (n == "u" || n == "v") && s.kwargs {
+				want = r.Intn(4) == 0
+			}
+			if want {
+				c.mask |= 1 << i
+			}
+		}
+		c.rev = popcount(c.mask) >= 2 && r.Intn(2) == 0
+		if r.Intn(10) < 4 {
+			c.seq = 1 + r.Intn(len(sp.seqs)-3) // an iterable
+		}
+		if r.Intn(10) < 4 {
+			c.dict = 1 + r.Intn(len(sp.dicts)-1)
+		}
+		return c
 	}
+	c.npos = r.Intn(maxNpos + 1)
 	var k int
 	switch x := r.Intn(100); {
 	case x < 22:
